@@ -273,6 +273,39 @@ def tmpl_forward_jump(rng):
     return prog
 
 
+def tmpl_nan_variants(rng, allow_input=True):
+    """NaN reached by different routes (empty pop, 1/0, NaN+x, NaN*x, negated NaN, inverted NaN) is delivered to
+    EMPTY and non-empty stacks - including stack 0, where a kept NaN would mask an input read - and then observed.
+    The routes matter because the implementation has several internal representations of NaN."""
+    prog = []
+    a = rng.choice([4, 5, 6])
+    prog += [(0, 1, rng.choice([5, 7, 65]), None), (1, 1, a, None)]           # stack a = [v]
+    route = rng.random()
+    if route < 0.2:
+        prog += [(1, 1, a, None)]                                              # pop empty stack 3 -> NaN -> onto a (kept)
+    elif route < 0.4:
+        prog += [(0, 1, 0, None), (4, 1, a, None)]                             # 1/0 -> NaN; product NaN -> a
+    elif route < 0.6:
+        prog += [(3, 1, a, None)]                                              # negate NaN (empty pop) -> -NaN -> a
+    elif route < 0.8:
+        prog += [(3, 2, a, None)]
+    else:
+        prog += [(4, 1, a, None), (3, 1, a, None)]
+    prog += [(5, 1, a, None)]                                                  # select a (stack 3 is empty: copies NaN onto a)
+    dest = rng.choice([0, 0, 0, 7, 8]) if allow_input else rng.choice([7, 8])
+    k = rng.random()
+    if k < 0.5:
+        prog += [(5, rng.choice([1, 2]), dest, None)]                          # 흑: top of a (a NaN variant) copied to dest, select dest
+    elif k < 0.75:
+        prog += [(3, 1, dest, None), (5, 1, dest, None)]                       # negate top, sum (NaN) -> dest; then select dest via copy
+    else:
+        prog += [(1, 1, dest, None), (5, 1, dest, None)]
+    prog += [(1, 1, 1, None)] * rng.randint(1, 3)                              # observe: prints / reads input if dest is 0 and empty
+    if rng.random() < 0.5:
+        prog += [(5, 1, a, None), (1, 1, 1, None), (1, 1, 1, None)]
+    return prog
+
+
 def tmpl_stack0_data(rng):
     """Stack 0 used as an ordinary data stack before (and while) it doubles as the input buffer: values are
     pushed onto it, it is selected, and then printed from / popped by multi-operand commands / compared in
@@ -380,8 +413,13 @@ def tmpl_fractions(rng):
     return prog
 
 
+HOSTILE_SEQS = ['\r\n', 'A\r\nB\r\n', '\n\n', '\r\r\n', ' \n ', '\t\n', '{}', '{{', '\\n', '"\\', "'\"", '%s%d', '\u2028\n', '\n\r']
+
+
 def tmpl_hostile_output(rng, allow_unencodable=True):
     codes = [rng.choice(HOSTILE) for _ in range(rng.randint(1, 6))]
+    if rng.random() < 0.4:
+        codes += [ord(ch) for ch in rng.choice(HOSTILE_SEQS)] + [rng.choice(HOSTILE)]
     prog = print_chars(codes, 3, 1)
     if rng.random() < 0.5:
         prog += print_chars([rng.choice(HOSTILE) for _ in range(rng.randint(1, 3))], 3, 2)
@@ -682,6 +720,7 @@ TEMPLATES = {
     'hostile_output': lambda rng, ai: tmpl_hostile_output(rng),
     'exit': lambda rng, ai: tmpl_exit(rng),
     'stacky': lambda rng, ai: gen_stacky(rng),
+    'nan_variants': lambda rng, ai: tmpl_nan_variants(rng, ai),
     'subroutine': lambda rng, ai: tmpl_subroutine(rng),
     'two_returns': lambda rng, ai: tmpl_two_returns(rng),
     'forward_jump': lambda rng, ai: tmpl_forward_jump(rng),
